@@ -1,17 +1,19 @@
 """C08 - size criterion."""
 import gen_flw as g
 
-CLAIM = ('Proved in Coq also for TimestampsDirect naming (C08_partition_timestampsdirect, C08_rotates_iff_timestampsdirect: same '
-         'greedy partition, same rotation flags; clock not going backwards, up to the year 9999). Proved in Coq for the model, '
-         'for every size limit, buffer capacity, append setting and every history of writes, raw chunks, flushes, triggers and '
-         'clock ticks from an empty directory, under Numbers naming and under NumbersDirect naming: a write rotates iff the '
-         'bytes counted for the current file (on disk + buffered) already exceed the limit (C08_rotates_iff_exceeds, '
-         'C08_rotates_iff_numbersdirect), and the files left after stop are exactly the greedy partition (C08_partition_numbers, '
-         'C08_partition_numbersdirect); the executable oracle is proved to be that partition (C08_oracle_sound). For the '
-         'time-stamp namings, append onto existing content, CRLF and AgeOrSize the same statement is decided by the '
+CLAIM = ('Proved in Coq for the model, for every size limit, buffer capacity, append setting and every history of writes, raw '
+         'chunks, flushes, triggers and clock ticks from an empty directory, under ALL FOUR standard namings - Numbers, '
+         'NumbersDirect, Timestamps (with rCURRENT) and TimestampsDirect; for the two time-stamp namings: clock not going '
+         'backwards, up to the year 9999 -: a write rotates iff the bytes counted for the current file (on disk + buffered) '
+         'already exceed the limit (C08_rotates_iff_exceeds, C08_rotates_iff_numbersdirect, C08_rotates_iff_timestamps, '
+         'C08_rotates_iff_timestampsdirect), and the files left after stop are exactly the greedy partition of the written '
+         'records (C08_partition_numbers, C08_partition_numbersdirect, C08_partition_timestamps - closed files + rCURRENT, '
+         'nothing at all when nothing was written -, C08_partition_timestampsdirect); the executable oracle is proved to be that '
+         "partition (C08_oracle_sound) and to accept the reader's view of the Timestamps directory (C08_oracle_timestamps). For "
+         'custom time-stamp formats, append onto existing content, CRLF and AgeOrSize the same statement is decided by the '
          'correspondence check (model = implementation on every explored history) plus the verified oracle applied to the '
-         "implementation's files; those parts are partial (no invariant proof for time-stamp namings). ")
-THEOREMS = ["C08_rotates_iff_exceeds", "C08_partition_numbers", "C08_partition_numbersdirect", "C08_rotates_iff_numbersdirect", "C08_partition_timestampsdirect", "C08_rotates_iff_timestampsdirect", "C08_oracle_sound"]
+         "implementation's files: partial there. ")
+THEOREMS = ["C08_rotates_iff_exceeds", "C08_partition_numbers", "C08_partition_numbersdirect", "C08_rotates_iff_numbersdirect", "C08_partition_timestampsdirect", "C08_rotates_iff_timestampsdirect", "C08_oracle_sound", "C08_partition_timestamps", "C08_rotates_iff_timestamps", "C08_oracle_timestamps"]
 TRUSTED = ["modelled, not verified: std BufWriter/File semantics, rename/open/truncate of the OS (Fs/Fs.v)"]
 ASSUMPTIONS = ["no I/O faults, no kill, no external modification of the directory during the run (those are C19, C11, C18)",
                "the correspondence explores a finite sample; the theorems cover all inputs of the model"]
